@@ -107,11 +107,29 @@ def gen_wild(rng):
 
 
 # ---------------------------------------------------------------------------------------------- oracle on the real code
+def classify(failure):
+    """known-finding id of a failure: an empty data section (title directly followed by another title) that is not the last
+    line of the file: the data loops test `line_no == end` only after reading a line and read on to the end of the file"""
+    c = failure["case"]
+    for key in ("text", "permuted", "planted"):
+        t = c.get(key)
+        if t:
+            n = len(ld.split_lines(t))
+            for a, b, _, k in ld.real_sections_scan(t):
+                if k == "data" and a == b and b < n - 1:
+                    return "empty-data-section-reads-on"
+    return None
+
+
+
 def data_ok(secs, dump):
     exp = ld.expected_data(secs)
     if exp is None:
         return all(vals in (None, []) for _, vals in dump["data"])
     got = dump["data"]
+    if exp and not exp[0]:
+        # no rows: whatever curves exist (declared in ~C) carry no data
+        return all(vals == [] for _, vals in got)
     if len(got) < len(exp):
         return False
     for k, col in enumerate(exp):
@@ -146,7 +164,9 @@ def check_tags(secs, text):
 
 def plant(rng, secs):
     """copy of the document with a steering-named item planted in a ~C / ~P / custom section; None when there is none"""
-    cands = [i for i, s in enumerate(secs) if s["kind"] in ("C", "P", "X")]
+    # a curve planted in ~C legitimately changes the number of columns a file DECLARED as wrapped is reshaped to
+    wrapped = any(b[1] == "steer" and "WRAP" in b[0] and "YES" in b[0] for b in secs[0]["body"])
+    cands = [i for i, s in enumerate(secs) if s["kind"] in ("P", "X") or (s["kind"] == "C" and not wrapped)]
     if not cands:
         return None
     i = rng.choice(cands)
@@ -217,7 +237,8 @@ class Batch:
         if not self.pend or run.model is None:
             self.pend = []
             return
-        ans = run.model.ask([{"op": "rd.header", "text": t, "ignore": ig, "case": c} for (_, t, ig, c, _) in self.pend], chunk=32)
+        ans = run.model.ask([{"op": "rd.header", "text": t, "ignore": ig, "case": c} for (_, t, ig, c, _) in self.pend],
+                            chunk=(1 if max(len(x[1]) for x in self.pend) > 4000 else 8))
         for (stream, text, ig, c, indom), m in zip(self.pend, ans):
             run.traces += 1
             if m == "unmodelled":
